@@ -139,6 +139,17 @@ ParseAlt(b) ==
             LET lo == ParseToken(toks[1])  hi == ParseToken(toks[3]) IN
             IF lo.c.op = "" /\ hi.c.op = "" /\ ~lo.big /\ ~hi.big
             THEN [det |-> TRUE, alt |-> AltOf(<< HyphenOf(lo.c.pa, hi.c.pa) >>)]
+            \* one side is not a version at all (`1.2.3 - beta`, `beta - 1.2.3`, `>=1.2.3 - beta`): the hyphen form does
+            \* not apply, and the lone `-` and the other token are unparseable tokens, dropped
+            ELSE IF ~lo.big /\ ~hi.big /\ ((lo.c.op = "garbage") # (hi.c.op = "garbage"))
+            THEN [det |-> TRUE, alt |-> AltOf(<< lo.c, GarbageOf(Hy), hi.c >>)]
+            ELSE [det |-> FALSE, alt |-> <<>>]
+          \* `1.2.3 -` / `- 1.2.3`: the same with nothing on one side
+          ELSE IF Len(toks) = 2 /\ (toks[1] = Hy) # (toks[2] = Hy) THEN
+            LET k == IF toks[1] = Hy THEN 2 ELSE 1
+                c == ParseToken(toks[k]) IN
+            IF ~c.big /\ c.c.op # "garbage"
+            THEN [det |-> TRUE, alt |-> AltOf(IF k = 1 THEN << c.c, GarbageOf(Hy) >> ELSE << GarbageOf(Hy), c.c >>)]
             ELSE [det |-> FALSE, alt |-> <<>>]
           ELSE [det |-> FALSE, alt |-> <<>>])
   ELSE LET m == MergeOps(toks, 1, <<>>) IN
